@@ -193,6 +193,26 @@ int reproc_stop(reproc_t *process, reproc_stop_actions stop)
   ENS("C05/reproc_stop.closes_only_exit_pipe_once_reaped", g.open == (OLD(g.open) & ~((RUNNING0 && g.child_reaped) ? MASK_OF(P0(pipe.exit)) : 0u)) && g.lib == (OLD(g.lib) & ~((RUNNING0 && g.child_reaped) ? MASK_OF(P0(pipe.exit)) : 0u)))
   ;
 
+/* reproc_destroy (C15, C05): on a running handle the stop sequence given at
+   start runs first (checked step by step by the stop-sequence monitor; the
+   close contract refuses to release anything while the plan is unfinished), then
+   every end the parent still holds is closed once and the handle is freed. */
+#define PARENT_MASK0 (MASK_OF(P0(pipe.in)) | MASK_OF(P0(pipe.out)) | MASK_OF(P0(pipe.err)) | MASK_OF(P0(pipe.exit)))
+#define STOP_RAN_TO_COMPLETION (g.child_reaped || g.faults > OLD(g.faults) || g.plan_pos >= gc.plan_n || (gc.plan_invalid_at >= 0 && g.plan_pos == gc.plan_invalid_at))
+
+CONTRACT(reproc_destroy)
+reproc_t *reproc_destroy(reproc_t *process)
+  REQ("C14/reproc_destroy.handle_invariant", process == NULL || INV(process))
+  ASSIGNS(process != NULL: *process; g)
+  FREES(process)
+  ENS("C15/reproc_destroy.returns_null", RV == NULL)
+  ENS("C14+C15/reproc_destroy.null_is_noop", IMPLIES(process == NULL, OS_UNTOUCHED))
+  ENS("C15/reproc_destroy.no_stop_unless_running", IMPLIES(process != NULL && P0(status) != ST_IN_PROGRESS, g.nsig == OLD(g.nsig) && g.kill_calls == OLD(g.kill_calls) && g.poll_calls == OLD(g.poll_calls) && g.wait_calls == OLD(g.wait_calls)))
+  ENS("C15/reproc_destroy.running_child_gets_the_stop_policy", IMPLIES(RUNNING0 && gc.plan_on, STOP_RAN_TO_COMPLETION))
+  ENS("C05+C15/reproc_destroy.every_parent_end_closed_once", IMPLIES(process != NULL && !g.in_child, g.open == (OLD(g.open) & ~PARENT_MASK0) && g.lib == (OLD(g.lib) & ~PARENT_MASK0)))
+  ENS("C05/reproc_destroy.other_descriptors_untouched", FD_FRAME_EXCEPT(process != NULL ? PARENT_MASK0 : 0u))
+  ;
+
 CONTRACT(reproc_close)
 int reproc_close(reproc_t *process, REPROC_STREAM stream)
   REQ("C14/reproc_close.handle_invariant", process == NULL || INV(process))
